@@ -246,6 +246,31 @@ def replay_scenario(path, chk):
     return 0
 
 
+def run_apalache(chk, wd, module, runs, *, timeout=900):
+    """Unbounded design-level safety with Apalache: `runs` = [(init, inv, length, what)], every run must report NoError.
+    The specification is independent of /repo; a failure is a defect of the specification (tool error), never a verdict on the code."""
+    import subprocess, shutil, time
+    src = os.path.join(vlib.ROOT, "spec", "apalache", module + ".tla")
+    out = []
+    for init, inv, length, what in runs:
+        od = os.path.join(wd, f"apalache-{module}-{inv}-{length}")
+        shutil.rmtree(od, ignore_errors=True)
+        t = time.time()
+        try:
+            p = subprocess.run(["apalache-mc", "check", f"--init={init}", f"--inv={inv}", f"--length={length}", f"--out-dir={od}", src],
+                               capture_output=True, text=True, timeout=timeout, cwd=wd)
+        except subprocess.TimeoutExpired:
+            raise vlib.ToolError(f"Apalache timed out after {timeout}s on {module} ({what})")
+        okk = p.returncode == 0 and "The outcome is: NoError" in p.stdout
+        out.append({"module": module, "init": init, "inv": inv, "length": length, "what": what, "ok": okk, "wall_s": round(time.time() - t, 1)})
+        print(f"[apalache] {module} {what}: {'NoError' if okk else 'FAILED'} {time.time() - t:.1f}s", flush=True)
+        shutil.rmtree(od, ignore_errors=True)
+        if not okk:
+            raise vlib.ToolError(f"Apalache: {what} of {module} failed (the specification itself is wrong):\n{p.stdout[-1500:]}")
+    chk.notes.setdefault("apalache", []).extend(out)
+    return out
+
+
 def run_mc(chk, wd, module, cfg=None, *, label="mc", workers=4, must_cover=()):
     """Design-level model checking of a system spec (invariants + temporal properties); vacuity = tool error."""
     r = vlib.tlc(module, cfg, name=label, wd=wd, workers=workers, coverage=True)
